@@ -2,6 +2,7 @@ package fn
 
 import (
 	"fmt"
+	"math/rand"
 	"sort"
 	"time"
 
@@ -47,6 +48,13 @@ func (e *C15) Run(ctx *core.Ctx, idx int) {
 	}
 }
 
+func c15Zone(r *rand.Rand, skew bool) string {
+	if skew && r.Intn(4) != 0 {
+		return "b"
+	}
+	return []string{"a", "b", "c"}[r.Intn(3)]
+}
+
 func (e *C15) one(ctx *core.Ctx) {
 	r := ctx.Rand
 	now := kit.T0
@@ -65,8 +73,17 @@ func (e *C15) one(ctx *core.Ctx) {
 		canary.NodeAntiAffinityKeys = []string{"zone"}
 	}
 	if useSel {
-		canary.NodeSelector = &metav1.LabelSelector{MatchLabels: map[string]string{"pool": "c"}}
+		// the same set of nodes written in the three ways a label selector allows
+		switch r.Intn(3) {
+		case 0:
+			canary.NodeSelector = &metav1.LabelSelector{MatchLabels: map[string]string{"pool": "c"}}
+		case 1:
+			canary.NodeSelector = &metav1.LabelSelector{MatchExpressions: []metav1.LabelSelectorRequirement{{Key: "pool", Operator: metav1.LabelSelectorOpIn, Values: []string{"c", "d"}}}}
+		default:
+			canary.NodeSelector = &metav1.LabelSelector{MatchExpressions: []metav1.LabelSelectorRequirement{{Key: "pool", Operator: metav1.LabelSelectorOpExists}}}
+		}
 	}
+	skew := r.Intn(2) == 0 // most nodes in one zone: the per-value quota of the spreading is binding
 	eds := kit.NewEDS("ns", "foo", "B", canary)
 	eds.UID = "uid-eds"
 	rsA := kit.NewRS(s, eds, "foo-a", kit.Tpl("A"), now.Add(-time.Hour))
@@ -74,7 +91,7 @@ func (e *C15) one(ctx *core.Ctx) {
 	var nodes []c15Node
 	tplB := kit.Tpl("B")
 	for i := 0; i < nn; i++ {
-		ni := c15Node{Name: fmt.Sprintf("n%d", i), Zone: []string{"a", "b", "c"}[r.Intn(3)], Fit: r.Intn(5) != 0, Sel: r.Intn(3) != 0, Restarts: []int{0, 0, 1, 3, 7}[r.Intn(5)]}
+		ni := c15Node{Name: fmt.Sprintf("n%d", i), Zone: c15Zone(r, skew), Fit: r.Intn(5) != 0, Sel: r.Intn(3) != 0, Restarts: []int{0, 0, 1, 3, 7}[r.Intn(5)]}
 		lbl := map[string]string{"zone": ni.Zone}
 		if ni.Sel {
 			lbl["pool"] = "c"
